@@ -172,6 +172,10 @@ impl Oplog {
                     let mut partials: Vec<bool> = Vec::new();
                     while let Some(entry_outcome) = Self::validate_leader(entries_buff)? {
                         let res = Entry::decode(entry_outcome.state)?;
+                        // New entries must be appended after the ones that are replayed
+                        outcome.oplog.entries_length += 1;
+                        outcome.oplog.entries_byte_length +=
+                            (entries_buff.len() - res.1.len()) as u64;
                         entries.push(res.0);
                         entries_buff = res.1;
                         partials.push(entry_outcome.partial_bit);
